@@ -23,6 +23,10 @@ func main() {
 				}
 			}()
 			fmt.Printf("%-40s => %s\n", p, impl.Run(p, in).String())
+			if os.Getenv("PROBE_SHOW_INPUT") != "" {
+				b, _ := json.Marshal(in)
+				fmt.Printf("%-40s    input now %s\n", "", b)
+			}
 		}()
 	}
 }
